@@ -40,11 +40,13 @@ ASSUMPTIONS = ["field characters are printable non-blank ASCII; ids fit a C int"
                "CRYST1 (box through trigonometry), altloc filtering, element guessing and REMARK parsing are exercised by the "
                "oracle only, not modelled",
                "hybrid-36 C int arithmetic is overflow-free for widths <= 6 (checked by correspondence), the all-width theorems are about the algorithm over unbounded naturals"]
-LEVEL_TEXT = ("Lean proofs for all inputs: hybrid-36 decode(encode n w) = n for every width w >= 1 and n <= maxNumber w, rejection "
-              "beyond, width; every ATOM/HETATM record accepted by _check_pdb_compatibility is 80 characters with every field in its "
-              "fixed columns (C07_compat_sound + C07_columns), rounding error <= half a unit of the last written decimal, single-record "
-              "write/read round trip; CONECT chunking. MODEL/ENDMDL indexing, CONECT id mapping and CRYST1 are tied by correspondence "
-              "and the write/read oracle only (partial).")
+LEVEL_TEXT = ("Lean proofs for all inputs: hybrid-36 decode(encode n w) = n for every width w >= 1 and n <= maxNumber w (also inside a "
+              "blank-padded column), encode(decode s) = s on canonical strings, rejection beyond the range, width; the repaired "
+              "_check_pdb_compatibility accepts exactly the atoms whose fields fit after rounding (C07_compat_sound / _exact) and every "
+              "accepted ATOM/HETATM record is 80 characters with all 19 fields in their fixed columns (C07_columns); rounding error <= half "
+              "a unit of the last written decimal; identifier/name fields of a record read back (C07_atom_roundtrip_partial); CONECT "
+              "writer. Partial: reading the numeric text back, MODEL/ENDMDL indexing, the CONECT id map and CRYST1 are tied by "
+              "correspondence and the write/read oracle only.")
 LEVEL_NOTE = "float formatting/parsing, numpy chararray and BondList semantics are modelled, not verified; see notes/C07.md"
 TECHNIQUE = "Lean 4 proof (induction over digit lists / list layout lemmas) + regenerated column tables + correspondence"
 
@@ -167,34 +169,48 @@ def gen_lean():
         if k not in consts:
             raise ValueError(f"{k} not found")
     ss = _find_func(tree, "set_structure")
+    # Everything below is found by *shape*, not by the names of local variables, so renaming a local stays quiet;
+    # fields get role names by their position in the sum.
     first = second = None
     numfmt = {}
     line_parts = model_parts = None
     h36w = {}
+    roles1 = ["record", "pdb_atom_id", "spaces", "names", "spaces", "res_names", "spaces", "chain_ids", "pdb_res_id", "ins_codes"]
+    roles2 = ["occupancy", "b_factor", "spaces", "elements", "charge"]
     for n in ast.walk(ss):
-        if isinstance(n, ast.Assign) and isinstance(n.targets[0], ast.Name):
-            t = n.targets[0].id
-            if t == "first_half":
-                first = _layout(n.value, "first_half")
-            elif t == "second_half":
-                second = _layout(n.value, "second_half")
-            elif t in ("b_factor", "occupancy"):
-                for js in ast.walk(n.value):
-                    if isinstance(js, ast.JoinedStr):
-                        p = _fstring_parts(js)
-                        if len(p) == 1 and p[0][0] == "val":
-                            numfmt[t] = p[0][2]
-            elif t in ("pdb_atom_id", "pdb_res_id"):
-                for c in ast.walk(n.value):
-                    if isinstance(c, ast.Call) and getattr(c.func, "id", None) == "encode_hybrid36":
-                        h36w[t] = int(c.args[1].value)
+        if isinstance(n, ast.Assign) and isinstance(n.value, ast.BinOp) and isinstance(n.value.op, ast.Add):
+            terms = _flatten_add(n.value)
+            just = [t for t in terms if isinstance(t, ast.Call) and isinstance(t.func, ast.Attribute) and t.func.attr in ("ljust", "rjust")]
+            if len(terms) >= 4 and just:
+                lay = _layout(n.value, "half")
+                has_mult = any(isinstance(t, ast.BinOp) and isinstance(t.op, ast.Mult) for t in terms)
+                roles = roles2 if has_mult else roles1
+                if len(lay) != len(roles):
+                    raise ValueError(f"set_structure: a record half has {len(lay)} terms, expected {len(roles)}")
+                for (nm, j, w), r in zip(lay, roles):
+                    if (nm == "spaces") != (r == "spaces"):
+                        raise ValueError("set_structure: blank columns are not where they are expected")
+                lay = [(r, j, w) for (nm, j, w), r in zip(lay, roles)]
+                if has_mult:
+                    second = lay
+                else:
+                    first = lay
+        if isinstance(n, ast.ListComp) and isinstance(n.elt, ast.JoinedStr) and isinstance(n.generators[0].iter, ast.Attribute) \
+                and n.generators[0].iter.attr in ("b_factor", "occupancy"):
+            p = _fstring_parts(n.elt)
+            if len(p) == 1 and p[0][0] == "val":
+                numfmt[n.generators[0].iter.attr] = p[0][2]
+        if isinstance(n, ast.ListComp) and isinstance(n.elt, ast.Call) and getattr(n.elt.func, "id", None) == "encode_hybrid36":
+            key = "pdb_res_id" if "res_id" in ast.unparse(n.generators[0].iter) else "pdb_atom_id"
+            h36w[key] = int(n.elt.args[1].value)
         if isinstance(n, ast.JoinedStr):
             p = _fstring_parts(n)
-            names = [q[1] for q in p if q[0] == "val"]
-            if names == ["start", "x", "y", "z", "end"]:
-                line_parts = p
-            if names == ["model_num"]:
-                model_parts = p
+            vals = [q for q in p if q[0] == "val"]
+            if len(vals) == 5 and all(q[2] for q in vals):
+                it = iter(["start", "x", "y", "z", "end"])
+                line_parts = [(k, next(it) if k == "val" else a, b) for k, a, b in p]
+            if len(vals) == 1 and p[0][0] == "lit" and p[0][1].startswith("MODEL"):
+                model_parts = [(k, "model_num" if k == "val" else a, b) for k, a, b in p]
     if not (first and second and line_parts and model_parts) or set(numfmt) != {"b_factor", "occupancy"} \
             or set(h36w) != {"pdb_atom_id", "pdb_res_id"}:
         raise ValueError("set_structure: line assembly not found in the expected shape")
@@ -213,7 +229,7 @@ def gen_lean():
             numchk[key] = (n.args[1].value, int(n.args[2].value))
         if isinstance(n, ast.Compare) and isinstance(n.ops[0], ast.Lt) and isinstance(n.comparators[0], ast.UnaryOp) \
                 and isinstance(n.comparators[0].op, ast.USub):
-            minids[ast.unparse(n.left)] = -int(n.comparators[0].operand.value)
+            minids["array.res_id" if "res_id" in ast.unparse(n.left) else "min_atom_id"] = -int(n.comparators[0].operand.value)
     if set(lens) != {"chain_id", "res_name", "atom_name", "ins_code", "element"}:
         raise ValueError(f"_check_pdb_compatibility: length checks found for {sorted(lens)} only")
     if set(numchk) != {"coord", "b_factor", "occupancy"}:
@@ -649,8 +665,13 @@ def _oracle_h36ops(case):
             continue
         if not (0 <= n <= max_hybrid36_number(wd)):
             v.append((f"C07/hybrid36/accepted-out-of-range-width-{wd}", f"encode_hybrid36({n}, {wd}) = {s!r}"))
-        elif len(s) > wd or decode_hybrid36(s) != n or _h36_dec_ref(s) != n:
-            v.append((f"C07/hybrid36/roundtrip-width-{wd}", f"encode_hybrid36({n}, {wd}) = {s!r} decodes to {decode_hybrid36(s)}"))
+        else:
+            try:
+                back = (decode_hybrid36(s), _h36_dec_ref(s))
+            except Exception as e:  # noqa: BLE001
+                back = (type(e).__name__, None)
+            if len(s) > wd or back != (n, n):
+                v.append((f"C07/hybrid36/roundtrip-width-{wd}", f"encode_hybrid36({n}, {wd}) = {s!r} decodes to {back}"))
     return v
 
 
@@ -658,8 +679,12 @@ def _oracle_h36range(case):
     from biotite.structure.io.pdb.hybrid36 import decode_hybrid36, encode_hybrid36
     wd = case["w"]
     for n in range(case["lo"], case["hi"], case.get("step", 1)):
-        s = encode_hybrid36(n, wd)
-        if len(s) > wd or decode_hybrid36(s) != n or (n >= 10 ** (wd - 1) and len(s) != wd):
+        try:
+            s = encode_hybrid36(n, wd)
+            bad = len(s) > wd or decode_hybrid36(s) != n or (n >= 10 ** (wd - 1) and len(s) != wd)
+        except Exception as e:  # noqa: BLE001
+            s, bad = type(e).__name__, True
+        if bad:
             return [(f"C07/hybrid36/roundtrip-width-{wd}", f"encode_hybrid36({n}, {wd}) = {s!r}")]
     return []
 
